@@ -279,10 +279,7 @@ pub fn run(ctx: &Ctx, st: &mut Stats) {
             return;
         }
         let t = *rng.pick(&[0i64, 1, 43_200_000_000, DAY_US - 1]);
-        for n in [a, b, a] {
-            let c = C::ab(K::Pair, n, t);
-            st.eval_h(mix(c.hash(5), i as u64), &c, check);
-        }
+        st.eval_hist(mix(mix(a as u64, b as u64), t as u64), vec![C::ab(K::Pair, a, t), C::ab(K::Pair, b, t), C::ab(K::Pair, a, t)], check);
     });
     st.stratum("history: Date accessors and Timestamp accessors on numerically equal raw values", true);
     for n in date_pool().into_iter().map(|x| x as i64).chain((-3000..3000).map(|x| x * 487)).chain([0, 1, -1, 2, -2, 365, 719_162, -719_162, 2_932_896]) {
